@@ -97,16 +97,16 @@ def Port.recv (p : Port) (c : Nat) : List Tok :=
 
 /-! ## FilterTokenPort -/
 
-/-- `FilterTokenPort.put`: termination tokens and tokens admitted by the filter reach `Port.put` -/
-def filterPut (admits : Tok → Bool) (p : Port) (t : Tok) : Port :=
-  if t.term || admits t then p.put t else p
+/-- `FilterTokenPort.put`: termination tokens and tokens accepted by the filter reach `Port.put` -/
+def filterPut (keep : Tok → Bool) (p : Port) (t : Tok) : Port :=
+  if t.term || keep t then p.put t else p
 
-def filterStep (admits : Tok → Bool) (p : Port) : Op → Port
-  | .put t => filterPut admits p t
+def filterStep (keep : Tok → Bool) (p : Port) : Op → Port
+  | .put t => filterPut keep p t
   | .get c => p.get c
   | .close c => p.close c
 
-def filterRun (admits : Tok → Bool) (p : Port) (ops : List Op) : Port := ops.foldl (filterStep admits) p
+def filterRun (keep : Tok → Bool) (p : Port) (ops : List Op) : Port := ops.foldl (filterStep keep) p
 
 /-! ## InterWorkflowPort -/
 
